@@ -4,7 +4,7 @@ From Coq Require Import Strings.String Strings.Byte.
 From Coq Require Import List Arith NArith ZArith Bool.
 From PV Require Import Base.Bytes Base.Outcome Base.KV Did.Model Did.Props.
 From PV Require Import Chain.Model Chain.Run Chain.DidProps Chain.ExampleDid.
-From PV Require Chain.DidGenesisInv.
+From PV Require Base.Base64 Chain.DidGenesisInv.
 Import ListNotations.
 
 (** whatever the read operation returns for [did], after any history from a registry satisfying the
@@ -60,3 +60,16 @@ Theorem C11_genesis_lenient_refuted :
                   doc_id doc <> Chain.DidGenesisInv.D2.
 Proof. exact Chain.DidGenesisInv.did_genesis_lenient_refuted. Qed.
 Print Assumptions C11_genesis_lenient_refuted.
+
+(** the read operation as clients call it (did_base64 field, Go's base64.StdEncoding.DecodeString modelled in Base/Base64.v and
+    compared with the real handler on padded, unpadded, URL-alphabet, broken and over-long fields): a document comes back
+    only for a field that decodes, and it is about the decoded identifier; the standard encoding of a DID reads that DID *)
+Theorem C11_read_returns_document_about_decoded_request : forall st raw doc seq,
+  Inv_did st -> q_did64 st raw = Some (DFound doc seq) ->
+  exists did, Base.Base64.b64_decode raw = Some did /\ doc_id doc = did.
+Proof. exact Chain.DidGenesisInv.q_did64_about_the_request. Qed.
+Print Assumptions C11_read_returns_document_about_decoded_request.
+
+Theorem C11_wellformed_request_reads_its_did : forall st did, q_did64 st (Base.Base64.base64 did) = Some (q_did st did).
+Proof. exact Chain.DidGenesisInv.q_did64_wellformed. Qed.
+Print Assumptions C11_wellformed_request_reads_its_did.
